@@ -115,7 +115,8 @@ def run_checks(only=None):
                                 "from twlint import facts as F; F.REPO=%r\n"
                                 "from twlint.runner import run_property\n"
                                 "mod,rep,cfgs,metas,wall=run_property(%r,'quick',%r)\n"
-                                "import json; print(json.dumps(sorted({v.rule for v in rep.violations})))" % (VERIF, SCR, prop, SCR)],
+                                "from twlint.runner import load_known; K={k for p_,k,t in load_known() if p_==%r}\n"
+                                "import json; print(json.dumps(sorted({v.rule for v in rep.violations if v.key not in K})))" % (VERIF, SCR, prop, SCR, prop)],
                                cwd=VERIF, capture_output=True, text=True)
             try:
                 rules = json.loads(c.stdout.strip().splitlines()[-1])
@@ -174,7 +175,8 @@ def run_all_checks_on_scratch():
                             "from twlint import facts as F; F.REPO=%r\n"
                             "from twlint.runner import run_property\n"
                             "mod,rep,cfgs,metas,wall=run_property(%r,'quick',%r)\n"
-                            "import json; print(json.dumps(sorted({v.rule+': '+v.message[:160] for v in rep.violations})))" % (VERIF, SCR, prop, SCR)],
+                            "from twlint.runner import load_known; K={k for p_,k,t in load_known() if p_==%r}\n"
+                                "import json; print(json.dumps(sorted({v.rule+': '+v.message[:160] for v in rep.violations if v.key not in K})))" % (VERIF, SCR, prop, SCR, prop)],
                            cwd=VERIF, capture_output=True, text=True)
         try:
             rules = json.loads(c.stdout.strip().splitlines()[-1])
